@@ -23,6 +23,7 @@ type ModSet struct {
 	Regions map[string]bool
 	Descs   map[string]RegionDesc
 	All     bool
+	Reads   bool // may read from an underlying io.Reader (moves the ghost tape cursor)
 }
 
 func newModSet() *ModSet {
@@ -45,6 +46,10 @@ func (m *ModSet) union(o *ModSet) bool {
 	ch := false
 	if o.All && !m.All {
 		m.All = true
+		ch = true
+	}
+	if (o.Reads || o.All) && !m.Reads {
+		m.Reads = true
 		ch = true
 	}
 	for _, d := range o.Descs {
@@ -185,16 +190,19 @@ func (p *Program) callMods(cc *ssa.CallCommon, ms *ModSet) {
 		case "(io.Reader).Read":
 			ms.add(descElem(types.Typ[types.Uint8]))
 			ms.add(descAlloc)
+			ms.Reads = true
 		case "(io.Writer).Write", "(error).Error":
 			ms.add(descAlloc)
 		default:
 			ms.All = true
+			ms.Reads = true
 		}
 		return
 	}
 	callee := resolveCallee(cc.Value)
 	if callee == nil {
 		ms.All = true
+		ms.Reads = true
 		return
 	}
 	inMod := callee.Pkg != nil && p.inModule(callee.Pkg.Pkg.Path()) || callee.Parent() != nil
@@ -268,6 +276,7 @@ func (p *Program) callMods(cc *ssa.CallCommon, ms *ModSet) {
 	if key == "io.ReadFull" {
 		ms.add(descElem(types.Typ[types.Uint8]))
 		ms.add(descAlloc)
+		ms.Reads = true
 		return
 	}
 	if _, ok := intrinsics[key]; ok {
@@ -294,6 +303,7 @@ func (p *Program) callMods(cc *ssa.CallCommon, ms *ModSet) {
 	}
 	if callback {
 		ms.All = true
+		ms.Reads = true
 		return
 	}
 	for _, a := range cc.Args {
